@@ -247,9 +247,9 @@ public:
      */
     auto clear() -> void
     {
-        if (!empty())
+        std::lock_guard guard{m_lock};
+        if (!m_keyed_elements.empty())
         {
-            std::lock_guard guard{m_lock};
             m_keyed_elements.clear();
             m_ttl_list.clear();
         }
